@@ -1074,6 +1074,9 @@ class Envelope:
         if self.state is None:
             return self.fock.resize(new_dimensions)
 
+        # Determined first, tracing out the fock space can reorder the product state
+        num_quanta = self.fock._num_quanta
+
         reshape_shape = [-1, -1]
         assert isinstance(self.fock.dimensions, int)
         assert isinstance(self.fock.index, int)
@@ -1096,7 +1099,6 @@ class Envelope:
                 self.fock.dimensions = new_dimensions
                 return True
             if new_dimensions < self.fock.dimensions:
-                num_quanta = self.fock._num_quanta
                 if num_quanta >= new_dimensions:
                     # Cannot hrink because amplitues exist beyond new_dimensions
                     return False
@@ -1124,9 +1126,6 @@ class Envelope:
                 self.state = ps.reshape((self.dimensions, self.dimensions))
                 return True
             if new_dimensions <= self.fock.dimensions:
-                to = self.trace_out(self.fock)
-                assert isinstance(to, jnp.ndarray)
-                num_quanta = num_quanta_matrix(to)
                 if num_quanta >= new_dimensions:
                     return False
                 slices = [slice(None)] * ps.ndim
